@@ -314,7 +314,9 @@ def retStepWith (g : Guard) (s : S) (f : Frame) (r : Ret) : M S :=
   | .finish, .stuck ops =>
     -- C01 (liveness, as far as a run can show it): nothing whose descriptor is ready stays uncompleted
     -- C14: an operation deferred only because the dispatch limit was reached completes later like any other
-    g [(ops.any (fun id => match findOp s id with | some o => o.atLimit | none => false), "operation-deferred-at-limit-never-completed"),
+    -- C04: a schedule whose delay has passed fires as long as the loop is polled
+    g [(ops.any (fun id => match findOp s id with | some o => o.kind.isTimer | none => false), "timer-never-fired-although-due"),
+       (ops.any (fun id => match findOp s id with | some o => o.atLimit | none => false), "operation-deferred-at-limit-never-completed"),
        (!ops.isEmpty, "operation-never-completed-although-ready")] s
   | _, _ => .ok s
 
